@@ -11,5 +11,22 @@ CLAIMED["C05"] = dict(
     note="Trusted: Go stdlib json/sql glue; the reference operators of AccessMode.tla (binding compares every real output with them: zero divergences required on the unchanged tree). Notification path is exercised at function level (Topic.notifySubChange / proxy updateAcsFromPresMsg); the World-level follower check over whole request histories is part of the TopicCore traces.",
     technique="TLA+ reference algebra model-checked by TLC; TLC-evaluated law monitors over exhaustively recorded real-function vectors (model-based test per input)",
 )
+
+_TOPIC_NOTE = ("Trusted: memadp (in-memory adapter written from the MySQL adapter's SQL; the SQL itself is not executed); requests are issued one at a time and the real server is run to quiescence after each (probe round-trips through hub, topic and user-cache actors); group topics on a single node; the TopicCore model (zero divergences between Step(pre, request) and the real post-state are required on the unchanged tree and reported otherwise).")
+def _topic(pid, what):
+    CLAIMED[pid] = dict(
+        category="model_checking",
+        text=("TLC checks the property's monitors (spec/TopicMonitors.tla) on every transition of the as-intended TopicCore model (exhaustive, small constants), generates behaviours from the model (one regression counterexample per named deviation DEV_* plus seeded random walks), the Go World replays them into the REAL hub/topic/session/store code over an in-memory adapter, and TLC evaluates the same monitors on every recorded step (pre-state rows and live-topic cache, request, frames, push receipts, post-state) and compares the real post-state with Step(pre, request). " + what),
+        note=_TOPIC_NOTE,
+        technique="TLA+ model (TopicCore) checked by TLC; TLC-generated behaviours replayed into the real server; TLC-evaluated monitors + Step-conformance on recorded traces",
+    )
+_topic("C01", "Monitors: acknowledged id = previous stored id + 1, recipients and store show the acknowledged id, no duplicates or gaps among stored ids, counters never decrease, live counter covers stored messages (across unload/reload).")
+_topic("C02", "Monitors: recipient set = attached sessions of readers (minus the publisher under noecho), one copy each, content/author/id unaltered, push receipt addressed to subscribers with R and P.")
+_topic("C03", "Monitors: 202 iff attached and W in want/\\given; a rejected publish gets an error code and changes neither store nor live topic and reaches nobody.")
+_topic("C06", "Monitors: exactly one effective owner in the store after every step, live topic and topic row know that owner, others cannot change the owner's subscription, ownership leaves only by an accepted transfer, owner cannot unsubscribe, only the owner deletes the topic or changes public/default access, O is granted only by the owner.")
+_topic("C07", "Monitors: given changes only by approver/owner (or admin self-raise without O/D, or the strip at transfer), want only by its user, invitations need sharer (default access unless admin), re-subscription restores the previous grant, first subscription gets the default grant, subscriber limit, no attachment without J in given.")
+_topic("C08", "Monitors: at the step where it first breaks, every live-topic field (ids, default access, subscribers, permissions, marks, owner) equals what a reload would compute from the rows; a request answered with an error leaves the store unchanged. Reload (idle unload through the real timer + re-subscribe) is part of the generated behaviours.")
+_topic("C09", "Monitors: 0<=read<=recv<=last id in store and live topic (reported where first broken), marks never decrease, marks move only by the user's own publish or note with R, notes are never answered.")
+
 _ALL = ["C%02d" % i for i in range(1, 21)]
 NOT_APPLICABLE = {p: "check not built yet in this round (work in progress; the technique applies, see DESIGN.md §5)" for p in _ALL if p not in CLAIMED}
